@@ -28,6 +28,9 @@ structure R (m : Mode) (q : List Ns) (c : Cli) (v : View) : Prop where
 theorem R_init (q : List Ns) : R .live q init View.down := by
   constructor <;> simp [init, View.down]
 
+theorem R_initR (b : Bool) (q : List Ns) : R .live q (initR b) View.down := by
+  constructor <;> simp [initR, View.down]
+
 theorem hasNs_eq_hasKey (c : Cli) (n : Ns) : hasNs c n = hasKey c.namespaces n := rfl
 
 theorem hasKey_append (l : List (Ns × J)) (n m : Ns) (s : J) :
@@ -348,6 +351,33 @@ theorem R.congr {m : Mode} {q : List Ns} {c c' : Cli} {v : View} (h : R m q c v)
   · exact h.alive
   · exact h.inv_c
 
+/-- the relation looks at these seven fields of the client only -/
+theorem R.of_fields {m : Mode} {q : List Ns} {c c' : Cli} {v : View} (h : R m q c v)
+    (h1 : c'.eio = c.eio) (h2 : c'.connected = c.connected) (h3 : c'.namespaces = c.namespaces)
+    (h4 : c'.sid = c.sid) (h5 : c'.binbuf = c.binbuf) (h6 : c'.cbs = c.cbs) (h7 : c'.ctr = c.ctr) :
+    R m q c' v := by
+  constructor
+  · rw [h1]; exact h.eio
+  · rw [h2]; exact h.conn
+  · rw [h3]; exact h.ns1
+  · rw [h3]; exact h.ns2
+  · rw [h4]; exact h.sid
+  · rw [h5]; exact h.bin
+  · rw [h6, h7]; exact h.down
+  · exact h.inv_a
+  · exact h.inv_b
+  · exact h.inv_e
+  · exact h.rootref
+  · exact h.winup
+  · exact h.alive
+  · exact h.inv_c
+
+theorem R.startEffort {m : Mode} {q : List Ns} {c : Cli} {v : View} (h : R m q c v) :
+    R m q (startEffort c).1 v := by
+  rcases startEffort_eq c with he | he <;> rw [he]
+  · exact h
+  · exact h.of_fields rfl rfl rfl rfl rfl rfl rfl
+
 /-- … nor (on the view's side) at anything but `pend` when only that changes -/
 theorem R.set_pend {m : Mode} {q : List Ns} {c : Cli} {v : View} (h : R m q c v) (hup : v.up = true)
     (p : Option Partial) : R m q { c with binbuf := p } { v with pend := p } := by
@@ -429,8 +459,9 @@ theorem sim_ev (cfg : Cfg) {m : Mode} {q : List Ns} {c : Cli} {v v' : View} {e :
       · rename_i hm; subst hm
         simp only [View.endAll, Option.some.injEq, Prod.mk.injEq] at hs
         obtain ⟨rfl, rfl⟩ := hs
-        have := sim_end cfg rTransport h hup
-        simpa [deliver, onLost, heio] using this
+        obtain ⟨hR, hn⟩ := sim_end cfg rTransport h hup
+        simp only [deliver, onLost, heio, if_true]
+        exact ⟨hR.startEffort, by rw [notes_append, hn, notes_startEffort]; simp⟩
       · cases hs
     | close =>
       simp only at hs
